@@ -100,6 +100,30 @@ Theorem C01_tlv_lengths_fit_bounds_allocations : forall d b,
   tlv_fit d b = true -> forall fuel, Forall (fun L => 0 <= L <= zlen b) (lib_allocs fuel b).
 Proof. exact fit_bounded. Qed.
 
+(* an accepted buffer is exactly a well-nested forest of definite-length values, each inside
+   its container, at most [d] levels deep - for all byte strings; the fuel of the model's loop
+   is never the reason for a refusal *)
+Theorem C01_accepted_buffer_is_wellnested : forall d b, tlv_fit d b = true <-> wellnested d b.
+Proof. intros d b. split; [exact (fit_wellnested d b) | exact (wellnested_fit d b)]. Qed.
+
+(* where the octets of an accepted header sit: identifier of [k] octets (high-tag-number form:
+   tag octets 1..k-1, all but the last with the top bit set), the length octet at index k - never
+   a tag octet -, short form or long form with 1..4 octets, content inside the container *)
+Theorem C01_tlv_header_shape : forall b c i l,
+  tlv_hdr b = Some (c, i, l) ->
+  let k := ident_len b in
+  1 <= k < zlen b /\
+  (high_form b = true ->
+     2 <= k /\
+     (forall j : nat, (1 <= j)%nat -> Z.of_nat j < k - 1 -> (128 <= nth j b 0)%N) /\
+     (nth (Z.to_nat (k - 1)%Z) b 0 < 128)%N) /\
+  c = (N.land (nth O b 0%N) 32 =? 32)%N /\
+  (let lb := Z.of_N (nth (Z.to_nat k) b 0%N) in
+   (lb < 128 /\ i = k + 1 /\ l = lb) \/
+   (128 < lb <= 132 /\ i = k + 1 + (lb - 128) /\ l = be_val (slice b (k + 1) i))) /\
+  0 <= l /\ i + l <= zlen b.
+Proof. exact tlv_hdr_shape. Qed.
+
 Theorem C01_snmp_never_fatal : forall dg s, snmp_first dg <> Some (RFatal s).
 Proof. exact snmp_never_fatal. Qed.
 
@@ -138,6 +162,9 @@ Example C01_nonvacuous :
   snmp_first [48; 3; 2; 1; 0]%N = None /\
   lib_allocs 5 (snmp_buf [48; 3; 2; 1; 0]%N) = [3; 1] /\
   ldap_first [48; 5; 2; 1; 5; 66; 0]%N = None /\
+  ldap_first ([48; 20] ++ LDAP_PREFIX ++ [31; 6; 133; 64; 0; 0; 0; 0])%N = Some RErr /\
+  ldap_answers ([48; 17] ++ LDAP_PREFIX ++ [31; 129; 6; 1; 170])%N = true /\
+  ldap_answers ([48; 17] ++ LDAP_PREFIX ++ [31; 128; 6; 1; 170])%N = false /\
   ssh_loop 2 (new_decoder [1]%N) [] = Done [] /\
   ssh_loop 3 (new_decoder [0; 0; 0; 1; 65; 0; 0; 0]%N) [] = Done [[65%N]].
 Proof. vm_compute. repeat split; reflexivity. Qed.
@@ -159,6 +186,8 @@ Print Assumptions C01_adb_never_fatal.
 Print Assumptions C01_alloc_fatal_iff.
 Print Assumptions C01_alloc_small_fine.
 Print Assumptions C01_tlv_lengths_fit_bounds_allocations.
+Print Assumptions C01_accepted_buffer_is_wellnested.
+Print Assumptions C01_tlv_header_shape.
 Print Assumptions C01_snmp_never_fatal.
 Print Assumptions C01_snmp_library_allocations_fine.
 Print Assumptions C01_ldap_envelope_checked.
